@@ -716,6 +716,13 @@ func (th c10Thr) allSizes() []int {
 	return out
 }
 
+// manyParts: a token length that needs k cookies (k >= 3), placed in the middle of the k-cookie range (the ranges are as wide as
+// the distance between the measured thresholds).
+func (th c10Thr) manyParts(k int) int {
+	step := th.T[1] - th.T[0]
+	return th.T[0] + (k-2)*step + step/2
+}
+
 // boundary picks for pair / sequence enumeration.
 func (th c10Thr) pickSizes(rng *rand.Rand, extra int) []int {
 	out := []int{0}
@@ -755,7 +762,7 @@ func c10Cell(cfg *c10Cfg, th c10Thr, prev, now int, L int, op string) string {
 func TestVerif_C10(t *testing.T) {
 	run := vfNewRun(t, "C10", "exploration")
 	run.SetRule("histories of save/clear on the real cookie and Redis stores through SaveSession/LoadCookiedSession/ClearSessionCookie with one RFC 6265 jar per history; " +
-		"token lengths: tiny, EVERY length within ±24 of the first three split thresholds (found by bisection per configuration), 6–12 kB incompressible; " +
+		"token lengths: tiny, EVERY length within ±24 of the first three split thresholds (found by bisection per configuration), 6–12 kB incompressible, and sessions of 9–22 cookies (thorough: up to ~101) going up and down across the 10/11-cookie boundary; " +
 		"single saves over all sizes, all ordered pairs of boundary sizes, exhaustive class sequences and seeded random sequences with clears (length <= 4 quick, <= 6 thorough); " +
 		"field contents from binary nonces, Unicode / invalid UTF-8 e-mail, nil/empty/300-entry/70 kB groups, nil/zero/past/future/far timestamps; cookie names of length 1..256 and regexp metacharacters; " +
 		"plus login -> refresh (growing / shrinking ID token) -> sign-out flows over HTTP. " +
@@ -769,7 +776,7 @@ func TestVerif_C10(t *testing.T) {
 	defer debug.SetMemoryLimit(debug.SetMemoryLimit(3 << 30)) // keeps the laxer pace from growing the heap without bound
 	w := vfNewWorld(t)
 	defer w.Close()
-	st := c10NewStream(run.Env.Seed*31+7, 140000)
+	st := c10NewStream(run.Env.Seed*31+7, 420000)
 	c10SelfTest(t, st)
 
 	cfgs := c10Configs(run, w)
@@ -795,6 +802,7 @@ func TestVerif_C10(t *testing.T) {
 		c10Singles(jobs, run, cfg, p, st, th)
 		c10Pairs(jobs, run, cfg, p, st, th, ci)
 		c10Sequences(jobs, run, cfg, p, st, th, ci)
+		c10ManyParts(jobs, run, cfg, p, st, th, ci)
 	}
 	run.Extra("thresholds_token_length", thrSample)
 	c10Flows(jobs, run, w, st)
@@ -868,6 +876,102 @@ func c10Pairs(jobs *c10Jobs, run *vfRun, cfg *c10Cfg, p *vfProxy, st *c10Stream,
 		run.SampleEvery(20011, func() interface{} {
 			return map[string]interface{}{"config": cfg.Label, "history": b.histString(), "steps": b.steps}
 		})
+	})
+}
+
+// c10ManyParts: sessions of 9..22 (thorough: ~101) cookies on the cookie store — the part index gets a second and third digit — as
+// single saves, as ordered pairs going up and down across the 10/11 boundary, and in random sequences with small sessions and clears.
+func c10ManyParts(jobs *c10Jobs, run *vfRun, cfg *c10Cfg, p *vfProxy, st *c10Stream, th c10Thr, ci int) {
+	if cfg.Store != "cookie" {
+		return
+	}
+	ks := []int{10, 11, 21}
+	if cfg.Heavy {
+		ks = []int{9, 10, 11, 12, 21, 22}
+	}
+	if run.Env.Thorough() {
+		ks = []int{9, 10, 11, 12, 13, 17, 21, 22, 31}
+		if cfg.Heavy {
+			ks = append(ks, 100, 101, 102)
+		}
+	}
+	jobs.each(len(ks), func(i int) {
+		b := c10NewBrowser(run, cfg, p, st)
+		L := th.manyParts(ks[i])
+		parts, _ := b.Save(c10Spec{L: L, UID: c10UID()})
+		run.Eval(c10Cell(cfg, th, 0, parts, L, "save"))
+		if parts == ks[i] {
+			run.Count("many_part_sessions_as_planned", 1)
+		}
+		if parts >= 11 {
+			run.Count("saves_of_11_or_more_cookies", 1)
+		}
+		b.Clear()
+		run.Eval(c10Cell(cfg, th, parts, 0, L, "clear"))
+	})
+	small, two := 500, th.T[0]
+	k := th.manyParts
+	pairs := [][2]int{{k(10), k(11)}, {k(11), k(10)}, {k(11), two}, {small, k(11)}}
+	if cfg.Heavy || run.Env.Thorough() {
+		set := []int{small, two, k(10), k(11), k(12), k(21)}
+		if run.Env.Thorough() {
+			set = append(set, k(9), k(22))
+		}
+		pairs = nil
+		for _, a := range set {
+			for _, c := range set {
+				if a > two || c > two {
+					pairs = append(pairs, [2]int{a, c})
+				}
+			}
+		}
+	}
+	jobs.each(len(pairs), func(i int) {
+		b := c10NewBrowser(run, cfg, p, st)
+		var v int64
+		if i%3 == 2 {
+			v = run.Env.Seed*86028121 + int64(i)*53 + int64(ci)
+		}
+		p1, _ := b.Save(c10Spec{L: pairs[i][0], UID: c10UID()})
+		p2, _ := b.Save(c10Spec{L: pairs[i][1], Variant: v, UID: c10UID()})
+		run.Eval(c10Cell(cfg, th, 0, p1, pairs[i][0], "save"))
+		run.Eval(c10Cell(cfg, th, p1, p2, pairs[i][1], "save"))
+		if p1 >= 11 || p2 >= 11 {
+			run.Count("saves_of_11_or_more_cookies", 1)
+		}
+		run.Count("many_part_pair_histories", 1)
+	})
+	if !cfg.Heavy {
+		return
+	}
+	rng := rand.New(rand.NewSource(run.Env.Seed*7723 + int64(ci)*29))
+	classes := []int{-1, small, two, k(9), k(10), k(10), k(11), k(11), k(12), k(11), k(10), k(21)}
+	var seqs [][]int
+	for n := 0; n < run.Env.Pick(14, 300); n++ {
+		l := 3 + rng.Intn(run.Env.Pick(2, 4))
+		sq := make([]int, l)
+		for j := range sq {
+			sq[j] = classes[rng.Intn(len(classes))]
+		}
+		seqs = append(seqs, sq)
+	}
+	jobs.each(len(seqs), func(i int) {
+		b := c10NewBrowser(run, cfg, p, st)
+		for _, L := range seqs[i] {
+			prev := b.parts
+			if L < 0 {
+				b.Clear()
+				run.Eval(c10Cell(cfg, th, prev, 0, 0, "clear"))
+				continue
+			}
+			parts, _ := b.Save(c10Spec{L: L, UID: c10UID()})
+			run.Eval(c10Cell(cfg, th, prev, parts, L, "save"))
+			if parts >= 11 {
+				run.Count("saves_of_11_or_more_cookies", 1)
+			}
+		}
+		run.Count("many_part_sequence_histories", 1)
+		run.SampleEvery(40009, func() interface{} { return map[string]interface{}{"config": cfg.Label, "history": b.histString()} })
 	})
 }
 
@@ -1019,6 +1123,8 @@ func c10Flows(jobs *c10Jobs, run *vfRun, w *vfWorld, st *c10Stream) {
 			}
 		}
 	}
+	// ID tokens that need more than ten cookies, growing into and shrinking out of that range
+	flows = append(flows, []int{0, 24000}, []int{24000, 1500}, []int{22000, 26000, 20000}, []int{9000, 40000, 24000})
 	for k := 0; k < run.Env.Pick(10, 60); k++ {
 		flows = append(flows, []int{pads[rng.Intn(5)] + rng.Intn(200), pads[rng.Intn(5)] + rng.Intn(200), pads[rng.Intn(5)] + rng.Intn(200)})
 	}
